@@ -9,7 +9,7 @@ ORDERS = ["sorted", "reversed", "rotated", "interleaved"]
 
 
 def build(b):
-    files = {"R/a.txt": 1, "R/b.tmp": 2, "R/d/c.txt": 3, "R/d/e/f.txt": 4, "R/AB/ab1.txt": 5, "R/B/b1.txt": 6, "R/A/a1.txt": 7, "R/C/c1.txt": 8}
+    files = {"R/a.txt": 1, "R/b.tmp": 2, "R/d/c.txt": 3, "R/d/e/f.txt": 4, "R/AB/ab1.txt": 5, "R/B/b1.txt": 6, "R/A/a1.txt": 7, "R/C/c1.txt": 8, "R/d/Clip.mov": 9, "R/d/clip.mov": 10, "R/d/Reel/r.txt": 11, "R/d/reel/r.txt": 12}
     for f, c in files.items():
         b.mkfile(f, c)
     b.mkdir("R/z")
